@@ -117,7 +117,7 @@ def c02_extra(run, tier):
         d = len(shape)
         for dt in (torch.float64, torch.complex128):
             for eps in (0.0, 1e-12, 1e-6, 1e-2, 0.3):
-                for variant in ("sum3", "zero", "scaled"):
+                for variant in ("sum3", "ppq", "zero", "scaled"):
                     R = [1] + ranks + [1]
                     def mk():
                         cs = []
@@ -129,6 +129,10 @@ def c02_extra(run, tier):
                     if variant == "sum3":
                         x = x + x + x            # exact ranks R, stored 3R
                         rho = list(ranks)
+                    elif variant == "ppq":
+                        q_ = mk()
+                        x = x + x + q_           # a repeated term before a different one: dependent columns stand before independent ones
+                        rho = None               # (the accuracy bound decides; the exact ranks depend on the mode sizes)
                     elif variant == "zero":
                         z = x * 0                # exact zero cores
                         x = z + z + x * 0        # the zero tensor stored with ranks 3
